@@ -42,7 +42,20 @@ RULE = ("Transactions with every (inputs, outputs) pair in 1..6 x 0..6, every in
         "script commands, tx_ins and tx_outs; history_world runs histories over SEVERAL Tx objects (five ways of "
         "building them, incl. Tx.parse and bare constructors filled in place; objects made before and after the "
         "edits of the others) and compares every digest with the reference for that object's own current fields; "
-        "where nothing defines a digest (p2wsh without witness, p2sh without redeem script) Tx.sig_hash must fail.")
+        "where nothing defines a digest (p2wsh without witness, p2sh without redeem script) Tx.sig_hash must fail.  "
+        "ENTRY POINTS BESIDE THE CENTRAL ONES: every call of sig_hash_legacy / sig_hash_bip143 / sig_hash_bip341 / "
+        "get_sig_* / check_sig_* / sign_input / sign_p2tr_keypath is written either with every argument or with the "
+        "arguments that equal the documented defaults LEFT OUT (chosen from the content: inputs + index odd); "
+        "Tx.initialize_p2tr_multisig + finalize_p2tr_multisig with signatures of mutually different hash types made over "
+        "the reference digests (any order, empty and foreign entries, annex); spent outputs LOOKED UP through "
+        "TxIn.value() / script_pubkey() (TxFetcher cache filled from reference-serialised previous transactions with "
+        "several different outputs, inputs pointing at different indices, some inputs preset and some not, four network "
+        "names, network access replaced by a failure); Witness.tap_script / control_block / tap_leaf against the positions "
+        "BIP341 gives, witness unchanged; digests before and after Tx.verify_input on the same object (valid annex / "
+        "multisig spends and early failures), verdict repeated; Tx.clone(): source and clone edited and queried "
+        "independently (in-place edits of the spent-script OBJECT excluded: clone() shares it, see the report); P2SH redeem "
+        "scripts that are themselves P2TR / P2PKH / P2SH templates or empty, empty witness scripts, witness programs spent "
+        "with a scriptSig.")
 TRUSTED = ["hashlib sha256 (hash256, sha256 and the tagged hashes are universally quantified functions in the theorems)",
            "the Python reference implementation of the three algorithms in harness/props/c05.py (test oracle only)",
            "modelled, not verified: TxIn.value()/script_pubkey() are taken as given inputs (pre-set _value/_script_pubkey, "
@@ -198,22 +211,47 @@ class Rec:
         return None
 
 
+def _omit_defaults(n_in, idx):
+    """HOW a call is written is not part of a canonical argument value: an argument that equals the documented default
+    of the method (hash_type=SIGHASH_ALL / SIGHASH_DEFAULT, ext_flag=0, redeem_script=None, witness_script=None,
+    aux=32 zero bytes) can be passed or left out.  Both ways are exercised; the way is derived from the content
+    (number of inputs + input index odd = left out), so that a replay makes the same call."""
+    return (n_in + idx) & 1 == 1
+
+
 def q_legacy(t, idx, redeem, ht):
+    lazy = _omit_defaults(len(t.tx_ins), idx)
+    kw = {} if (lazy and ht == 1) else {"hash_type": ht}
     with Rec() as r:
-        d = t.sig_hash_legacy(idx, redeem, hash_type=ht)
+        if lazy and redeem is None:
+            d = t.sig_hash_legacy(idx, **kw)
+        else:
+            d = t.sig_hash_legacy(idx, redeem, **kw)
     p = r.last("hash256")
     return [0, [] if p is None else [p], d]
 
 
 def q_bip143(t, idx, redeem, ws, ht):
+    lazy = _omit_defaults(len(t.tx_ins), idx)
+    kw = {} if (lazy and ht == 1) else {"hash_type": ht}
+    if not (lazy and redeem is None):
+        kw["redeem_script"] = redeem
+    if not (lazy and ws is None):
+        kw["witness_script"] = ws
     with Rec() as r:
-        d = t.sig_hash_bip143(idx, redeem_script=redeem, witness_script=ws, hash_type=ht)
+        d = t.sig_hash_bip143(idx, **kw)
     return [143, [r.last("hash256")], d]
 
 
 def q_bip341(t, idx, ext, ht):
+    lazy = _omit_defaults(len(t.tx_ins), idx)
+    kw = {}
+    if not (lazy and ext == 0):
+        kw["ext_flag"] = ext
+    if not (lazy and ht == 0):
+        kw["hash_type"] = ht
     with Rec() as r:
-        d = t.sig_hash_bip341(idx, ext_flag=ext, hash_type=ht)
+        d = t.sig_hash_bip341(idx, **kw)
     return [341, [r.last("tapsighash")], d]
 
 
@@ -370,28 +408,46 @@ def _priv(secret, compressed=1):
     return PrivateKey(secret, compressed=bool(compressed))
 
 
+def _opt_script_kw(n_in, idx, **scripts):
+    """keyword arguments for optional script parameters: None is left out when the style bit says so"""
+    lazy = _omit_defaults(n_in, idx)
+    return {k: mk_opt_script(v) for k, v in scripts.items() if not (lazy and not v)}
+
+
 def i_get_sig_legacy(tx, spent, idx, secret, redeem):
-    return mk_tx(tx, spent).get_sig_legacy(idx, _priv(secret), redeem_script=mk_opt_script(redeem))
+    return mk_tx(tx, spent).get_sig_legacy(idx, _priv(secret), **_opt_script_kw(len(tx[1]), idx, redeem_script=redeem))
 
 
 def i_get_sig_segwit(tx, spent, idx, secret, redeem, ws):
-    return mk_tx(tx, spent).get_sig_segwit(idx, _priv(secret), redeem_script=mk_opt_script(redeem),
-                                           witness_script=mk_opt_script(ws))
+    return mk_tx(tx, spent).get_sig_segwit(idx, _priv(secret),
+                                           **_opt_script_kw(len(tx[1]), idx, redeem_script=redeem, witness_script=ws))
+
+
+ZERO_AUX = bytes(32)
 
 
 def i_get_sig_taproot(tx, spent, idx, secret, ext, ht, aux):
-    return mk_tx(tx, spent).get_sig_taproot(idx, _priv(secret), ext_flag=ext, hash_type=ht, aux=aux)
+    lazy = _omit_defaults(len(tx[1]), idx)
+    kw = {}
+    if not (lazy and ext == 0):
+        kw["ext_flag"] = ext
+    if not (lazy and ht == 0):
+        kw["hash_type"] = ht
+    if not (lazy and aux == ZERO_AUX):
+        kw["aux"] = aux
+    return mk_tx(tx, spent).get_sig_taproot(idx, _priv(secret), **kw)
 
 
 def i_check_sig_legacy(tx, spent, idx, sec, der, redeem):
     from buidl.pecc import S256Point, Signature
-    return mk_tx(tx, spent).check_sig_legacy(idx, S256Point.parse(sec), Signature.parse(der), mk_opt_script(redeem))
+    return mk_tx(tx, spent).check_sig_legacy(idx, S256Point.parse(sec), Signature.parse(der),
+                                             **_opt_script_kw(len(tx[1]), idx, redeem_script=redeem))
 
 
 def i_check_sig_segwit(tx, spent, idx, sec, der, redeem, ws):
     from buidl.pecc import S256Point, Signature
-    return mk_tx(tx, spent).check_sig_segwit(idx, S256Point.parse(sec), Signature.parse(der), mk_opt_script(redeem),
-                                             mk_opt_script(ws))
+    return mk_tx(tx, spent).check_sig_segwit(idx, S256Point.parse(sec), Signature.parse(der),
+                                             **_opt_script_kw(len(tx[1]), idx, redeem_script=redeem, witness_script=ws))
 
 
 def i_verify_input(tx, spent, idx):
@@ -427,10 +483,22 @@ def _signed(t, idx, call):
     return [_v_script(ti.script_sig), list(ti.witness.items), 1 if ok else 0]
 
 
+def _sign_input_kw(n_in, idx, redeem, ht):
+    """keyword arguments of a Tx.sign_input call: those equal to the defaults (redeem_script=None,
+    hash_type=SIGHASH_ALL) are left out when the style bit says so (see _omit_defaults)"""
+    lazy = _omit_defaults(n_in, idx)
+    kw = {}
+    red = mk_opt_script(redeem)
+    if not (lazy and red is None):
+        kw["redeem_script"] = red
+    if not (lazy and ht == 1):
+        kw["hash_type"] = ht
+    return kw
+
+
 def i_sign_input(tx, spent, idx, secret, compressed, redeem, ht):
     t = mk_tx(tx, spent)
-    return _signed(t, idx, lambda: t.sign_input(idx, _priv(secret, compressed), redeem_script=mk_opt_script(redeem),
-                                                hash_type=ht))
+    return _signed(t, idx, lambda: t.sign_input(idx, _priv(secret, compressed), **_sign_input_kw(len(tx[1]), idx, redeem, ht)))
 
 
 def _i_sign(name):
@@ -442,7 +510,13 @@ def _i_sign(name):
 
 def i_sign_p2tr_keypath(tx, spent, idx, secret, ht, aux):
     t = mk_tx(tx, spent)
-    return _signed(t, idx, lambda: t.sign_p2tr_keypath(idx, _priv(secret), hash_type=ht, aux=aux))
+    lazy = _omit_defaults(len(tx[1]), idx)
+    kw = {}
+    if not (lazy and ht == 0):
+        kw["hash_type"] = ht
+    if not (lazy and aux == ZERO_AUX):
+        kw["aux"] = aux
+    return _signed(t, idx, lambda: t.sign_p2tr_keypath(idx, _priv(secret), **kw))
 
 
 def i_taproot_sig_rule(sig):
@@ -469,7 +543,7 @@ def i_sign_many(tx, spent, steps):
     try:
         res = []
         for idx, secret, compressed, redeem, ht in steps:
-            ok = _quiet(t.sign_input, idx, _priv(secret, compressed), redeem_script=mk_opt_script(redeem), hash_type=ht)
+            ok = _quiet(t.sign_input, idx, _priv(secret, compressed), **_sign_input_kw(len(t.tx_ins), idx, redeem, ht))
             res.append(1 if ok else 0)
         final = [1 if _quiet(t.verify_input, i) else 0 for i in range(len(t.tx_ins))]
     finally:
@@ -483,7 +557,7 @@ def p_sign_all_then_verify(tx, spent, steps):
     resulting fields (signing one input never invalidates another)."""
     t = mk_tx(tx, spent)
     for n, (idx, secret, compressed, redeem, ht) in enumerate(steps):
-        if not _quiet(t.sign_input, idx, _priv(secret, compressed), redeem_script=mk_opt_script(redeem), hash_type=ht):
+        if not _quiet(t.sign_input, idx, _priv(secret, compressed), **_sign_input_kw(len(t.tx_ins), idx, redeem, ht)):
             return f"step {n}: sign_input({idx}) returned False"
         for j, *_r in steps[: n + 1]:
             if not _quiet(t.verify_input, j):
@@ -1498,7 +1572,7 @@ def p_signer_digest(kind, txv, spent, idx, secret, redeem, ws):
         for ht in HASH_TYPES:
             want = _ref_digest_int(txv, spent, idx, ht)
             try:
-                sig = mk_tx(txv, spent).get_sig_taproot(idx, priv, ext_flag=ext, hash_type=ht, aux=bytes(32))
+                sig = i_get_sig_taproot(txv, spent, idx, secret, ext, ht, ZERO_AUX)
             except Exception as e:  # noqa
                 if want is None:
                     continue
@@ -1511,11 +1585,10 @@ def p_signer_digest(kind, txv, spent, idx, secret, redeem, ws):
             if not priv.point.verify_schnorr(want.to_bytes(32, "big"), SchnorrSignature.parse(rule[0][0])):
                 return f"get_sig_taproot(hash_type={hex(ht)}): the signature does not verify under the reference digest"
         return None
-    t = mk_tx(txv, spent)
     if kind in ("p2pkh", "bare-multisig", "p2sh-multisig"):
-        sig = t.get_sig_legacy(idx, priv, redeem_script=mk_opt_script(redeem))
+        sig = i_get_sig_legacy(txv, spent, idx, secret, redeem)
     else:
-        sig = t.get_sig_segwit(idx, priv, redeem_script=mk_opt_script(redeem), witness_script=mk_opt_script(ws))
+        sig = i_get_sig_segwit(txv, spent, idx, secret, redeem, ws)
     if sig[-1] != 1:
         return f"the ECDSA signer appended hash type {sig[-1]}, it hashes SIGHASH_ALL"
     want = _ref_digest_int(txv, spent, idx, 1)
@@ -1530,7 +1603,7 @@ def p_sign_then_verify(tx, spent, idx, secret, compressed, redeem, ht):
     from buidl.pecc import Signature, SchnorrSignature
     t = mk_tx(tx, spent)
     priv = _priv(secret, compressed)
-    ok = _quiet(t.sign_input, idx, priv, redeem_script=mk_opt_script(redeem), hash_type=ht)
+    ok = _quiet(t.sign_input, idx, priv, **_sign_input_kw(len(t.tx_ins), idx, redeem, ht))
     if not ok:
         return "sign_input returned False for an input the key can spend"
     if not _quiet(fresh_copy(t).verify_input, idx):
@@ -1604,6 +1677,244 @@ def p_hash_type_mask(tx, spent, idx, ht):
     return p_digest_eq_reference(tx, spent, idx, ht)
 
 
+# ---------------------------------------------------------------------------
+# entry points beside the central ones (audit of alternative entry points / per-element attributes / shared state)
+
+def _tap_msig_case(n_keys, k, n_in, n_out, idx, salt, annex):
+    """A single-leaf taproot k-of-n output in the form MultiSigTapScript gives it (x-only keys sorted, CHECKSIG /
+    CHECKSIGADD, k EQUAL), assembled by hand: raw tap script, leaf hash, control block, the spending transaction
+    value and a function giving the REFERENCE digest of a hash type for the script-path spend."""
+    import random
+    from buidl.pecc import PrivateKey
+    r = random.Random(0xF17A0000 + salt)
+    rb = lambda n: bytes(r.getrandbits(8) for _ in range(n))          # noqa: E731
+    privs = sorted([PrivateKey(r.randrange(1, 2 ** 255)) for _ in range(n_keys)], key=lambda pk: pk.point.xonly())
+    xs = [pk.point.xonly() for pk in privs]
+    cmds = [xs[0], 0xac]
+    for x in xs[1:]:
+        cmds += [x, 0xba]
+    if n_keys > 1:
+        cmds += [0x50 + k, 0x87]
+    raw = ref_raw_script(S(cmds))
+    leaf = _tagged(b"TapLeaf", b"\xc0" + _cs(len(raw)) + raw)
+    internal = PrivateKey(r.randrange(1, 2 ** 255)).point.even_point()
+    q = internal.tweaked_key(leaf)
+    cb = bytes([0xc0 | q.parity]) + internal.xonly()
+    ins = [[rb(32), r.randrange(0, 4), S([]), r.choice([0xffffffff, 0xfffffffe, 0, 5]), []] for _ in range(n_in)]
+    spent = [[r.randrange(600, 10 ** 8), S([0x76, 0xa9, rb(20), 0x88, 0xac])] for _ in range(n_in)]
+    spent[idx] = [r.randrange(600, 10 ** 8), S([0x51, q.xonly()])]
+    outs = [[r.randrange(600, 10 ** 6), S([0x00, rb(20)])] for _ in range(n_out)]
+    txv = [2, ins, outs, salt % 5]
+    tail = [raw, cb] + ([b"\x50" + rb(1 + salt % 4)] if annex else [])
+
+    def digest(ht):
+        v = copy.deepcopy(txv)
+        v[1][idx][4] = [b""] * n_keys + tail
+        d = ref_sig_hash(v, spent, idx, ht)
+        return None if d is None else d[2]
+    return privs, xs, raw, cb, tail, txv, spent, digest
+
+
+def p_finalize_p2tr_multisig(n_keys, k, n_in, n_out, idx, hts, salt, annex, extra):
+    """Tx.initialize_p2tr_multisig + Tx.finalize_p2tr_multisig: the signatures of k of the n keys, EACH made over the
+    reference digest of ITS OWN hash type (the hash types differ), handed over in any order (extra: also an empty
+    entry and a signature of a foreign key), are all recognised: the witness is the stack BIP342 needs (signature or
+    empty vector per key, last key first), the call returns True and a fresh object with these fields verifies."""
+    import random
+    from buidl.pecc import PrivateKey, S256Point
+    from buidl.taproot import ControlBlock, MultiSigTapScript
+    privs, xs, raw, cb, tail, txv, spent, digest = _tap_msig_case(n_keys, k, n_in, n_out, idx, salt, annex)
+    r = random.Random(salt)
+    signers = sorted(r.sample(range(n_keys), k))
+    sig_of = {}
+    for pos, j in enumerate(signers):
+        ht = hts[pos % len(hts)]
+        z = digest(ht)
+        if z is None:
+            return f"harness error: no reference digest for hash type {hex(ht)}"
+        sig_of[j] = privs[j].sign_schnorr(z, bytes(32)).serialize() + (bytes([ht]) if ht else b"")
+    sigs = [sig_of[j] for j in signers]
+    r.shuffle(sigs)
+    if extra:
+        sigs.insert(r.randrange(len(sigs) + 1), b"")
+        sigs.insert(r.randrange(len(sigs) + 1), PrivateKey(r.randrange(1, 2 ** 255)).sign_schnorr(digest(hts[0]), bytes(32)).serialize())
+    t = mk_tx(txv, spent)
+    ti = t.tx_ins[idx]
+    t.initialize_p2tr_multisig(idx, ControlBlock.parse(cb), MultiSigTapScript([S256Point.parse_xonly(x) for x in reversed(xs)], k))
+    if [bytes(x) for x in ti.witness.items] != [raw, cb]:
+        return f"initialize_p2tr_multisig left the witness {[bytes(x).hex() for x in ti.witness.items]}, expected [tap script, control block]"
+    if annex:
+        ti.witness.items.append(tail[-1])
+    ok = _quiet(t.finalize_p2tr_multisig, idx, sigs)
+    want = [sig_of.get(j, b"") for j in reversed(range(n_keys))] + tail
+    got = [bytes(x) for x in ti.witness.items]
+    if got != want:
+        return (f"signatures with hash types {[hex(hts[p % len(hts)]) for p in range(k)]} of keys {signers} (of {n_keys}, sorted): "
+                f"finalize_p2tr_multisig built the witness {[x.hex()[:16] + '/' + str(len(x)) for x in got]}, BIP342 needs "
+                f"{[x.hex()[:16] + '/' + str(len(x)) for x in want]}")
+    if not ok:
+        return "finalize_p2tr_multisig returned False for a complete set of valid signatures"
+    if not _quiet(fresh_copy(t).verify_input, idx):
+        return "a fresh Tx object with the finalized witness does not verify"
+    return None
+
+
+def ref_txid(tx):
+    """transaction id (as TxIn.prev_tx holds it) of a canonical transaction value without witnesses"""
+    return _dsha(ref_serialize([tx[0], [i[:4] + [[]] for i in tx[1]], tx[2], tx[3]]))[::-1]
+
+
+def p_fetched_spent(tx, prevs, preset, idx, ht, network):
+    """TxIn.value() / TxIn.script_pubkey() WITHOUT preset fields: the spent outputs are looked up (TxFetcher cache,
+    filled from reference-serialised previous transactions; no network) by (prev_tx, prev_index) of EACH input;
+    bit k of preset = input k has _value / _script_pubkey preset instead.  The digest of Tx.sig_hash equals the
+    reference for the outputs really spent; asked twice; the accessors return those outputs."""
+    if isinstance(network, bytes):
+        network = network.decode()
+    ver, ins, outs, lt = tx
+    spent = [copy.deepcopy(prevs[k][2][ins[k][1]]) for k in range(len(ins))]
+    want = ref_sig_hash(tx, spent, idx, ht)
+    saved = (btx.TxFetcher.cache, btx.urlopen)
+
+    def no_network(*a, **k):
+        raise RuntimeError("network access attempted: the previous transaction was not found in the cache")
+    btx.urlopen = no_network
+    btx.TxFetcher.cache = {}
+    try:
+        with contextlib.redirect_stdout(io.StringIO()):
+            for k, pv in enumerate(prevs):
+                if ref_txid(pv) != ins[k][0]:
+                    return "harness error: prev_tx of input %d is not the id of its previous transaction" % k
+                btx.TxFetcher.cache[ins[k][0].hex()] = Tx.parse(io.BytesIO(ref_serialize(pv)))
+            tins = [mk_txin(i, spent[k] if (preset >> k) & 1 else None) for k, i in enumerate(ins)]
+            t = Tx(ver, tins, [mk_txout(o) for o in outs], lt, network=network, segwit=True)
+            for rnd in (1, 2):
+                got = guarded(lambda: q_dispatch(t, idx, ht))
+                if want is None:
+                    if got is not ERR:
+                        return f"query {rnd}: the standards define no digest here but the library returned {_show(got)}"
+                elif got != want:
+                    return (f"query {rnd} (inputs with preset spent outputs: {[k for k in range(len(ins)) if (preset >> k) & 1]}, "
+                            f"prev_index of the inputs: {[i[1] for i in ins]}): library {_show(got)} != reference "
+                            f"{_show(want)} for the outputs really spent")
+            for k, ti in enumerate(t.tx_ins):
+                v = guarded(lambda: ti.value() if k & 1 else ti.value(network))
+                sp = guarded(lambda: (ti.script_pubkey(network) if k & 1 else ti.script_pubkey()).raw_serialize())
+                if v != spent[k][0] or sp != ref_raw_script(spent[k][1]):
+                    return (f"input {k} spends output {ins[k][1]} of its previous transaction (amount {spent[k][0]}, script "
+                            f"{ref_raw_script(spent[k][1]).hex()}); value() = {v}, script_pubkey() = "
+                            f"{sp.hex() if isinstance(sp, bytes) else sp}")
+    finally:
+        btx.TxFetcher.cache, btx.urlopen = saved
+    return None
+
+
+def p_witness_accessors(w):
+    """Witness.tap_script() / control_block() / tap_leaf() pick the BIP341 positions (annex, if any, set aside; control
+    block last, script before it) and leave the witness as it was."""
+    w = [bytes(x) for x in w]
+    annex, stack = ref_split_annex(w)
+    if len(stack) < 2:
+        return None
+    wit = Witness(list(w))
+    with contextlib.redirect_stdout(io.StringIO()):
+        ts = guarded(lambda: wit.tap_script().raw_serialize())
+        cbs = guarded(lambda: wit.control_block().serialize())
+        ver = guarded(lambda: wit.tap_leaf().tapleaf_version)
+    c = stack[-1]
+    cb_ok = 33 <= len(c) <= 33 + 32 * 128 and (len(c) - 33) % 32 == 0 and lift_ok(c[1:33]) and any(c[1:33])
+    if ts != stack[-2]:
+        return f"tap_script() = {ts.hex() if isinstance(ts, bytes) else ts}, the script of this witness is {stack[-2].hex()}"
+    if cb_ok and (cbs != c or ver != c[0] & 0xfe):
+        return (f"control_block() = {cbs.hex() if isinstance(cbs, bytes) else cbs} (leaf version {ver}), the control block "
+                f"of this witness is {c.hex()}")
+    if not cb_ok and len(c) != 33 + 32 * ((len(c) - 33) // 32) and cbs is not ERR:
+        return f"control_block() accepted a control block of {len(c)} bytes"
+    if [bytes(x) for x in wit.items] != w:
+        return "the accessors changed the witness"
+    return None
+
+
+def p_verify_then_digest(tx, spent, idx, hts, expect):
+    """Tx.verify_input is an observation: the digests of every input asked on the SAME object before and after it are
+    the reference digests of the unchanged transaction, the witness and scriptSig are what they were, a second
+    verify_input gives the same verdict (expect = 1: the spend is valid, the verdict must be True)."""
+    t = mk_tx(tx, spent)
+
+    def verdict():
+        try:
+            return bool(_quiet(t.verify_input, idx))
+        except Exception:  # noqa
+            return False
+
+    def digests(when):
+        for i in range(len(tx[1])):
+            for ht in hts:
+                want = ref_sig_hash(tx, spent, i, ht)
+                got = guarded(lambda: q_dispatch(t, i, ht))
+                if want is None:
+                    if got is not ERR:
+                        return f"{when}: input {i}, hash type {hex(ht)}: no digest is defined, the library returned {_show(got)}"
+                elif got != want:
+                    return f"{when}: input {i}, hash type {hex(ht)}: library {_show(got)} != reference {_show(want)}"
+        return None
+    try:
+        msg = digests("before verify_input")
+        if msg:
+            return msg
+        v1 = verdict()
+        if expect and not v1:
+            return "a spend signed over the reference digest is rejected by verify_input"
+        for k, ti in enumerate(t.tx_ins):
+            if [bytes(x) for x in ti.witness.items] != list(tx[1][k][4]) or _v_script(ti.script_sig) != [list(tx[1][k][2][0]), list(tx[1][k][2][1])]:
+                return (f"verify_input({idx}) changed input {k}: witness {[bytes(x).hex()[:16] for x in ti.witness.items]}, "
+                        f"scriptSig {ti.script_sig.commands}")
+        msg = digests(f"after verify_input({idx})")
+        if msg:
+            return msg
+        v2 = verdict()
+        if v1 != v2:
+            return f"verify_input({idx}) said {v1} the first time and {v2} the second time on the same object"
+    finally:
+        _scrub(t)
+    return None
+
+
+def p_clone_world(tx, spent, pre, ops):
+    """Tx.clone(): after some digest queries on the source (pre), a clone is made; then edits and queries go to the
+    source (object 0) and the clone (object 1): every query equals the reference for THAT object's own current fields
+    (nothing is shared between the two that an edit of one could show through)."""
+    with contextlib.redirect_stdout(io.StringIO()):
+        t = mk_tx(tx, spent)
+        sh = [copy.deepcopy([tx, spent]), None]
+        objs = [t, None]
+        try:
+            for step, q in enumerate(pre):
+                msg = _ext_query(t, sh[0], q, step)
+                if msg:
+                    return "source, before the clone is made: " + msg
+            objs[1] = t.clone()
+            sh[1] = copy.deepcopy(sh[0])
+            for step, (j, op) in enumerate(ops):
+                if op[0] != 0:
+                    apply_ext(objs[j], sh[j], op)
+                    continue
+                msg = _ext_query(objs[j], sh[j], op, step)
+                if msg:
+                    return ("the clone: " if j else "the source, after the clone was made: ") + msg
+        finally:
+            _scrub(*[o for o in objs if o is not None])
+    return None
+
+
+
+def p_clone_spent_script_shared(tx, spent, pre, ops):
+    """(observation, NOT generated) Tx.clone() copies the REFERENCE of every input's _script_pubkey: an in-place edit of
+    the spent script object reached through the clone (edit kinds 19 / 27) changes the digests of the source.  Same
+    predicate as clone_world; kept under its own name so that it can be registered as a known finding."""
+    return p_clone_world(tx, spent, pre, ops)
+
+
 PROPS = {
     "digest_eq_reference": p_digest_eq_reference,
     "builders_eq_reference": p_builders_eq_reference,
@@ -1619,12 +1930,20 @@ PROPS = {
     "taproot_sig_rule": p_taproot_sig_rule,
     "hash_type_mask": p_hash_type_mask,
     "sign_all_then_verify": p_sign_all_then_verify,
+    "finalize_p2tr_multisig": p_finalize_p2tr_multisig,
+    "fetched_spent": p_fetched_spent,
+    "witness_accessors": p_witness_accessors,
+    "verify_then_digest": p_verify_then_digest,
+    "clone_world": p_clone_world,
+    "clone_spent_script_shared": p_clone_spent_script_shared,
 }
 
 
 def classify(v):
     if v.get("kind") == "prop" and v.get("name") == "script_code_raw":
         return "C05-script-code-reserialized"
+    if v.get("kind") == "prop" and v.get("name") == "clone_spent_script_shared":
+        return "C05-clone-shares-spent-script"      # not generated: proposed to the lead (see p_clone_spent_script_shared)
     return None
 
 
@@ -2407,6 +2726,171 @@ def privs_der(c, ht):
     return c["privs"][0].sign(12345).der() + bytes([ht])
 
 
+def audit_cases(ctx):
+    """Entry points that most callers bypass, arguments left to their defaults, per-element attributes that differ
+    between the elements, state shared between a result and its source (cheap, deterministic cases)."""
+    r = ctx.rng
+    # ---- (1) default arguments of the three builders, of get_sig_taproot / sign_p2tr_keypath / sign_input: the call
+    #      style follows _omit_defaults; here shapes of BOTH parities with the argument values that equal the defaults
+    for n_in, idx in ((1, 0), (2, 0), (2, 1), (3, 1)):
+        style = "defaults-left-out" if _omit_defaults(n_in, idx) else "every-argument-passed"
+        for kinds in (["p2tr-key", "p2tr-key-annex", "p2tr-script"], ["p2wpkh", "p2pkh", "p2tr-script-annex"]):
+            tx, spent = make_tx(ctx, n_in, 2, [kinds[(idx + k) % 3] for k in range(n_in)])
+            code = S([0x76, 0xa9, ctx.rbytes(20), 0x88, 0xac])
+            ctx.label("call-style/builders/" + style)
+            for ht in (0, 1):
+                yield ("prop", "builders_eq_reference", [tx, spent, idx, ht, code])
+                yield ("corr", "bip341", [tx, spent, idx, 0, ht])
+                yield ("corr", "bip341", [tx, spent, idx, 1, ht])
+                yield ("corr", "legacy", [tx, spent, idx, [], ht])
+                yield ("corr", "bip143", [tx, spent, idx, [], [], ht])
+            yield ("prop", "history_ext", [tx, spent, [[0, [2, 0], idx, 0], [0, [0, []], idx, 1], [4, 9], [0, [2, 0], idx, 0],
+                                                       [0, [0, []], idx, 1], [0, [3], idx, 0]]])
+    from buidl.pecc import PrivateKey
+    for n_in, idx in ((1, 0), (2, 0)):
+        style = "defaults-left-out" if _omit_defaults(n_in, idx) else "every-argument-passed"
+        c = _site_spend(VD_KINDS.index("p2tr-key"), n_in, 1, idx, 8800 + n_in)
+        txv = c["with_sigs"]([c["sign"](0, 0, 0)])
+        ctx.label("call-style/get_sig_taproot/" + style)
+        yield ("corr", "get_sig_taproot", [txv, c["spent"], idx, c["privs"][0].secret, 0, 0, ZERO_AUX])
+        if _omit_defaults(n_in, idx):
+            yield ("prop", "signer_digest", ["p2tr-key", txv, c["spent"], idx, c["privs"][0].secret, [], []])
+        # unsigned p2tr input: sign_p2tr_keypath() with hash_type / aux at their defaults, sign_input() with hash_type at its
+        secret = r.randrange(1, 2 ** 250)
+        tw = PrivateKey(secret).tweaked_key()
+        tx, spent = make_tx(ctx, n_in, 1, ["p2wpkh"] * n_in)
+        for ti in tx[1]:
+            ti[2], ti[4] = S([]), []
+        tx[0], tx[3] = 2, 0
+        spent[idx][1] = S([0x51, tw.point.xonly()])
+        ctx.label("call-style/sign_p2tr/" + style)
+        yield ("corr", "sign_p2tr_keypath", [tx, spent, idx, tw.secret, 0, ZERO_AUX])
+        yield ("corr", "sign_input", [tx, spent, idx, tw.secret, 1, [], 1])
+        yield ("prop", "sign_then_verify", [tx, spent, idx, tw.secret, 1, [], 1])
+
+    # ---- (2) finalize_p2tr_multisig: every signature has its own hash type
+    for j, (n_keys, k, n_in, n_out, idx, hts, annex, extra) in enumerate(
+            [(2, 2, 2, 2, 1, [0x81, 3], 0, 0), (3, 2, 1, 1, 0, [0, 0x82], 1, 1)] +
+            ([] if ctx.tier == "quick" else [(3, 3, 3, 3, 2, [1, 0x83, 2], 0, 1), (2, 1, 2, 0, 0, [2], 1, 0),
+                                             (1, 1, 1, 1, 0, [0x83], 0, 0), (4, 2, 2, 2, 0, [3, 0], 1, 1)])):
+        ctx.label("finalize_p2tr_multisig/" + ("mixed-hash-types" if len(set(hts[:k])) > 1 else "one-hash-type"))
+        yield ("prop", "finalize_p2tr_multisig", [n_keys, k, n_in, n_out, idx, hts, 100 + j, annex, extra])
+
+    # ---- (3) spent outputs that are LOOKED UP (no preset _value / _script_pubkey): previous transactions with several,
+    #      different outputs; the inputs point at different output indices (two of them into the same transaction)
+    for j in range(ctx.n(12, 60)):
+        n_in = 2 + j % 3
+        kinds = [["p2tr-key", "p2tr-script", "p2wpkh", "p2tr-key-annex"][(j + k) % 4] for k in range(n_in)]
+        tx, spent = make_tx(ctx, n_in, 1 + j % 3, kinds)
+        prevs = []
+        for k in range(n_in):
+            if k == 1 and j % 2 == 0:
+                pv = prevs[0]                       # inputs 0 and 1 spend two outputs of ONE transaction
+                pos = (tx[1][0][1] + 1 + j % 2) % len(pv[2])
+            else:
+                n_po = r.choice([2, 3, 4])
+                pv = [r.choice([1, 2]), [[ctx.rbytes(32), r.randrange(4), S([ctx.rbytes(71), ctx.rbytes(33)]), r_seq(r), []]],
+                      [[r_amount(r), r_out_script(ctx)] for _ in range(n_po)], r_lock(r)]
+                pos = (j + k) % n_po
+            pv[2][pos] = copy.deepcopy(spent[k])
+            prevs.append(pv)
+            tx[1][k][1] = pos
+        for k in range(n_in):
+            tx[1][k][0] = ref_txid(prevs[k])
+        preset = [0, 0, 1, 2, (1 << n_in) - 2, 5][j % 6]
+        network = ["mainnet", "testnet", "signet", "regtest"][j % 4]
+        ctx.label("fetched-spent/" + ("none-preset" if preset == 0 else "some-preset"))
+        for idx in range(n_in):
+            yield ("prop", "fetched_spent", [tx, prevs, preset, idx, HASH_TYPES[(j + idx) % 7], network])
+
+    # ---- (4) Witness accessors on script-path witnesses with / without annex, with extra stack items
+    for j in range(ctx.n(40, 400)):
+        ts = ref_raw_script(S([ctx.rbytes(32), 0xac] + ([ctx.rbytes(32), 0xba] if j % 3 == 0 else [])))
+        cb = control_block(ctx, r.choice([0, 1, 2]), r.choice([0xc0, 0xc0, 0xc2, 0x50, 0xfe]))
+        if j % 7 == 6:
+            cb = cb[:-1] if len(cb) > 33 else cb + b"\x00"
+        w = [ctx.rbytes(64) for _ in range(j % 3)] + [ts, cb] + ([r_annex(ctx)] if j % 2 else [])
+        if j % 11 == 10:
+            w = [ts, cb, b"\x50"]
+        ctx.label("witness-accessors/" + ("annex" if ref_split_annex(w)[0] is not None else "no-annex"))
+        yield ("prop", "witness_accessors", [w])
+        yield ("corr", "tap_leaf", [w])
+
+    # ---- (5) verify_input, then the digests again on the same object: real spends with an annex / several signatures,
+    #      and spends that fail early (after the verifier has taken the witness apart)
+    salt = 9100
+    for kind, want_annex in (("p2tr-key", True), ("p2tr-script-checksigadd", True), ("p2wsh-multisig", False)):
+        kind_i = VD_KINDS.index(kind)
+        while True:
+            salt += 1
+            if not want_annex or salt % 3 == 0:
+                break
+        n_in, n_out, idx = [(2, 2, 1), (1, 1, 0), (2, 1, 0)][kind_i % 3]
+        c = _site_spend(kind_i, n_in, n_out, idx, salt)
+        ht = 0x81 if c["schnorr"] else 0x82
+        placed = [c["sign"](k, ht, ht) if k in c["signers"] else b"" for k in range(c["n_keys"])]
+        ctx.label("verify-then-digest/" + kind)
+        yield ("prop", "verify_then_digest", [c["with_sigs"](placed), c["spent"], idx, [ht, 1], 1])
+    for j in range(ctx.n(16, 120)):
+        kinds = [["p2tr-key-annex", "p2tr-script-annex", "p2wsh", "p2sh-p2wsh", "p2sh-multisig", "p2tr-script", "p2wpkh", "p2pkh"][(j + k) % 8]
+                 for k in range(1 + j % 2)]
+        tx, spent = make_tx(ctx, len(kinds), 1 + j % 2, kinds)
+        if kinds[0].startswith("p2tr") and j % 4 < 2:
+            spent[0][1] = S([0x51, valid_x(ctx)])
+        ctx.label("verify-then-digest/unsigned-or-invalid/" + kinds[0])
+        yield ("prop", "verify_then_digest", [tx, spent, 0, [HASH_TYPES[j % 7]], 0])
+
+    # ---- (6) Tx.clone(): source and clone edited and queried independently
+    for j in range(ctx.n(30, 300)):
+        kinds = [["p2tr-key", "p2wsh", "p2tr-script"], ["p2tr-key-annex", "p2wpkh"], ["p2sh-p2wsh", "p2tr-script-annex", "p2pkh"],
+                 ["p2tr-key", "p2tr-key"]][j % 4]
+        tx, spent = make_tx(ctx, len(kinds), 1 + j % 3, kinds)
+        tx[0] = r.choice([1, 2, 0xffffffff])
+        for sp in spent:
+            sp[0] = min(sp[0], 2 ** 63 - 1)
+        pre = [[0, [3], i, HASH_TYPES[(i + j) % 7]] for i in range(len(kinds))] if j % 3 else []
+        ops = []
+        kinds_ok = [k for k in EDIT_KINDS if k not in (19, 27, 21)]
+        for step in range(3):
+            obj = (j + step) % 2
+            k = [22, 17, 5, 23, 3, 11, 12, 1, 13, 15, 18, 26][(j // 2 + step * 5) % 12] if step < 2 else r.choice(kinds_ok)
+            ctx.label("clone/edit-" + ("clone" if obj else "source") + "/" + EDIT_NAMES[k])
+            ops.append([obj, r_edit(ctx, k)])
+            for o in (1 - obj, obj):
+                for i in range(len(kinds)):
+                    ops.append([o, [0, [3], i, HASH_TYPES[(i + j + step) % 7]]])
+                ops.append([o, [0, [2, 0], step, 0x81 if step else 0]])
+        yield ("prop", "clone_world", [tx, spent, pre, ops])
+
+    # ---- (7) coincidences the kind generators never make: a P2SH redeem script that is itself a P2TR / P2PKH / P2SH
+    #      template or empty; an EMPTY witness script; witness programs spent with a non-empty scriptSig
+    for j in range(ctx.n(2, 12)):
+        for red in (b"\x51\x20" + ctx.rbytes(32), b"\x76\xa9\x14" + ctx.rbytes(20) + b"\x88\xac", b"\xa9\x14" + ctx.rbytes(20) + b"\x87",
+                    b"", b"\x51", b"\x00\x14" + ctx.rbytes(19), b"\x00\x20" + ctx.rbytes(33)):
+            tx, spent = make_tx(ctx, 2, 2, ["p2sh-multisig", "p2tr-key"])
+            tx[1][0][2] = S([0, r_sig(ctx), red])
+            tx[1][0][4] = r.choice([[], [ctx.rbytes(64)], [b"", ref_raw_script(S([0x51]))]])
+            ctx.label("odd/p2sh-redeem-script-of-another-template")
+            for ht in (1, 0x83):
+                yield ("corr", "sig_hash", [tx, spent, 0, ht])
+                yield ("prop", "digest_eq_reference", [tx, spent, 0, ht])
+        for kind in ("p2wsh", "p2sh-p2wsh"):
+            for w in ([b""], [b"", b""], [r_sig(ctx), b""]):
+                tx, spent = make_tx(ctx, 2, 2, [kind, "p2wpkh"])
+                tx[1][0][4] = w
+                ctx.label("odd/empty-witness-script")
+                for ht in (1, 3, 0x82):
+                    yield ("corr", "sig_hash", [tx, spent, 0, ht])
+                    yield ("prop", "digest_eq_reference", [tx, spent, 0, ht])
+        for kind in ("p2wpkh", "p2wsh", "p2tr-key", "p2tr-script-annex"):
+            tx, spent = make_tx(ctx, 1, 1, [kind])
+            tx[1][0][2] = r.choice([S([b"\x00\x14" + ctx.rbytes(20)]), S([b"\x00\x20" + ctx.rbytes(32)]), S([r_sig(ctx), 0x51])])
+            ctx.label("odd/witness-program-with-scriptsig")
+            yield ("corr", "sig_hash", [tx, spent, 0, HASH_TYPES[j % 7]])
+            yield ("prop", "digest_eq_reference", [tx, spent, 0, HASH_TYPES[j % 7]])
+
+
+
 def generate(ctx):
     r = ctx.rng
     # --- Witness.has_annex: exhaustive small shapes + random
@@ -2442,6 +2926,9 @@ def generate(ctx):
         yield ("corr", "tap_leaf", [w])
     for w in ([], [b"\x01"], [b"\x50"], [b"\x01", b"\x50"]):
         yield ("corr", "tap_leaf", [w])
+
+    # --- alternative entry points, default arguments, per-element attributes, shared state
+    yield from audit_cases(ctx)
 
     # --- the digest at the point of use: hand-assembled spends verified by Tx.verify_input
     combos = [[1], [2], [3], [0x81], [0x82], [0x83], [0], [1, 0x82], [0x83, 1], [3, 2], [0, 0x81], [2, 0]]
